@@ -55,6 +55,10 @@ func Run(cfg *Config, plan Plan) *Result {
 	sim.OnUnlock = c.observe
 	sim.OnPanic = func(t *simrt.Task, val interface{}, stack string) {
 		c.Rec.taskPanic(t, val, stack)
+		if sim.Infra != "" {
+			sim.Stop()
+			return
+		}
 		// A real panic kills the real process.
 		if t.Owner != nil && t.Owner != sim.Harness {
 			if inc, ok := t.Owner.Data.(*Incarnation); ok && inc.Node.Inc == inc {
@@ -126,6 +130,14 @@ func Run(cfg *Config, plan Plan) *Result {
 			res.Steps, res.VirtualMs, res.OpsApplied, c.Rec.Probes["leader-elected"], c.Stats.Crashes, len(res.Violations)),
 	}
 	return res
+}
+
+func (c *Cluster) sleepUs(us int64) {
+	if us <= 0 {
+		simrt.Yield()
+		return
+	}
+	simtime.Sleep(simtime.Duration(us * 1_000))
 }
 
 func (c *Cluster) sleepMs(ms int64) {
@@ -203,6 +215,14 @@ func (c *Cluster) execStep(st Step) {
 						}
 					}
 				}
+			case StepLossy:
+				st.Node = l.ID
+				st.Nodes = nil
+				for _, n := range c.Nodes {
+					if n != l {
+						st.Nodes = append(st.Nodes, n.ID)
+					}
+				}
 			case StepOneWay:
 				// The leader can no longer be heard (its requests are lost) but still hears:
 				// replies already under way, however late, reach it. The deposed-but-unaware shape.
@@ -241,6 +261,11 @@ func (c *Cluster) execStep(st Step) {
 	case StepHeal:
 		c.Net.healAll()
 		c.Stats.Heals++
+	case StepLossy:
+		for _, to := range st.Nodes {
+			c.Net.setLossy(st.Node, to, int(st.A))
+		}
+		c.Stats.Partitions++
 	case StepCrash:
 		n := c.byID[st.Node]
 		if n == nil || n.Inc == nil {
